@@ -258,7 +258,8 @@ def explicit_cases(draw, tier="quick"):
     if wkind == "int" and draw(st.integers(0, 2)) == 0:
         # integer weights stored in a narrow type whose sums / squares leave that type
         wdtype = draw(st.sampled_from(["int8", "uint8", "int16", "int32", "uint16"]))
-        heavy = {"int8": [100, 120, 7, 0], "uint8": [200, 255, 16, 0], "int16": [30000, 200, 3, 0], "int32": [100000, 2 ** 30, 5, 0], "uint16": [60000, 300, 1, 0]}[wdtype]
+        heavy = {"int8": [100, 120, 7, 0], "uint8": [200, 255, 16, 0], "int16": [30000, 200, 3, 0], "int32": [100000, 2 ** 20, 5, 0], "uint16": [60000, 300, 1, 0]}[wdtype]
+        # (N-D contents are accumulated by numpy.histogramdd in float64: sums of squares stay below 2**53 here)
         weights = [draw(st.sampled_from(heavy)) for _ in weights]
     fwdtype = None
     if wkind in ("dyadic", "float") and draw(st.integers(0, 3)) == 0:
